@@ -53,6 +53,8 @@ def ev(t, env=None):
     op = t[0]
     if op == 'id':
         return env[t[1]]
+    if op == 'raw':
+        return t[2]   # ('raw', source text of a literal, its value)
     a = [ev(c, env) for c in t[1:]]
     if op == '?:':
         return a[1] if a[0] else a[2]
